@@ -410,7 +410,7 @@ func vfC04(w *vfWorld) {
 				key:      []string{"idp2", "idp1", "none"}[t.Weighted("c04.b2.key", 6, 2, 1)],
 				aud:      []string{"aud2", "list-with-aud2", "main-client", "extra", "other", "absent"}[t.Weighted("c04.b2.aud", 6, 2, 2, 1, 1, 1)],
 				exp:      []string{"future", "past"}[t.Weighted("c04.b2.exp", 8, 1)],
-				verified: []string{"true", "absent", "false"}[t.Weighted("c04.b2.verified", 6, 2, 1)],
+				verified: []string{"true", "absent", "false", "string-false", "zero", "object"}[t.Weighted("c04.b2.verified", 6, 2, 1, 1, 1, 1)],
 			}
 			if x.iss == "idp1" && x.key == "idp1" {
 				x.key = "idp2" // entirely the main issuer's token: that is the ordinary bearer path
@@ -442,12 +442,16 @@ func vfC04(w *vfWorld) {
 			if x.exp == "past" {
 				why("expired")
 			}
-			if x.verified == "false" {
+			switch x.verified {
+			case "false", "string-false":
+				// "false" as a string still marks the address unverified
 				if cs.AllowUnverified {
 					tk.Either = true // the generic bearer loader has no allow-unverified switch: stricter than required
 				} else {
-					why("email_verified=false")
+					why("email_verified=" + x.verified)
 				}
+			case "zero", "object":
+				tk.Either = true // neither a boolean nor a recognisable "false": not judged
 			}
 			tk.Accept = ok
 			id := &ident{email: "alice@example.com", user: "sub-alice", pu: "alice.p", groups: []string{"dev", "ops"}}
@@ -494,6 +498,12 @@ func vfC04(w *vfWorld) {
 					c["email_verified"] = true
 				case "false":
 					c["email_verified"] = false
+				case "string-false":
+					c["email_verified"] = "false"
+				case "zero":
+					c["email_verified"] = 0
+				case "object":
+					c["email_verified"] = map[string]interface{}{"value": false}
 				}
 			})
 			w.logf("c04", "bearer2 token: iss=%s key=%s aud=%s exp=%s verified=%s => accept=%v either=%v", x.iss, x.key, x.aud, x.exp, x.verified, tk.Accept, tk.Either)
